@@ -178,6 +178,8 @@ def run(chk):
              "Butt / Square / Round ends it is the end point of the last segment")
     chk.rule("LIMIT.rederived", "the miter threshold temp_lim_ (derived from MiterLimit) is written by every ClipperOffset::Execute overload before "
              "a join reads it: the join factor of this call is the one of the limit in force now")
+    chk.rule("JOIN.dispatch", "OffsetPoint on convex vertices, every JoinType, either sign of delta, miter limits on both sides of the miter length: Miter -> DoMiter "
+             "iff the miter length is within the limit else DoSquare; Round -> DoRound(atan2(sin_a, cos_a)); Bevel -> DoBevel; Square -> DoSquare; arguments (path, j, k)")
     chk.rule("POLY.offset", "join formulas as identities of normal forms: GetUnitNormal is the right-hand unit normal; sin_a / cos_a are cross / dot of the "
              "two normals; DoMiter, DoBevel, DoRound (first point and rotation step), GetPerpendic(D) append the textbook points")
     chk.rule("CAP.table", "start and end cap: Butt->DoBevel(i,i), Round->DoRound(i,i,PI), Square->DoSquare(i,i)")
@@ -220,6 +222,7 @@ def run(chk):
         e12.group_strip_rule(db, chk, cfg)
         from ..engines import e14_poly as e14
         e14.rule_offset(db, chk, cfg)
+        e12.join_dispatch_table(db, chk, cfg)
     chk.floor("LOOP", 2 * len(cfgs))
     chk.floor("DELTA.abs-only", 4 * len(cfgs))
     chk.floor("CAP.table", 6 * len(cfgs))
